@@ -25,10 +25,10 @@ META = dict(
 )
 
 
-def char_tests(ctx, body):
+def char_tests(ctx, body, only=None):
     """(op, char) for comparisons with char constants, plus array-of-char patterns and switch targets on chars."""
     found = set()
-    bodies = [body] + ctx.closures(body)
+    bodies = only if only is not None else [body] + ctx.closures(body)
     for b in bodies:
         for site, s in b.stmts():
             if s['s'] != 'assign':
@@ -55,7 +55,18 @@ def char_tests(ctx, body):
 
 def rule_json_str(ctx):
     b = ctx.body('<utils::json::json_str::WriteJsonStr as std::fmt::Write>::write_str')
-    tests = char_tests(ctx, b)
+    # If the escaper SEARCHES for the characters to escape with a predicate closure (str::find(|ch| ..)), the classes must
+    # all be in that predicate: a class that only appears in the later "which escape form" match is never reached.
+    preds = []
+    for s in b.calls(['re:str.*::find$', 're:::find$', 're:::position$', 're:::split$', 're:::char_indices$']):
+        for a in s.term['args'][1:]:
+            o = b.origin_of_operand(a)
+            while o is not None and o.kind in ('ref', 'cast'):
+                o = o.base
+            if o is not None and o.kind == 'agg' and o.rv.get('kind') == 'closure':
+                preds += ctx.facts.find(norm(o.rv['def']))
+    tests = char_tests(ctx, b, only=preds) if preds else char_tests(ctx, b)
+    ctx.extra['json_str_search_predicate'] = [x.nid for x in preds]
     has_quote = any(v in ("'\"'", 34) for _o, v in tests)
     has_bs = any(v in ("'\\\\'", 92) for _o, v in tests)
     has_ctl = any((o in ('Lt', 'revGt') and v in ("' '", "'\\u{20}'")) or (o in ('Le', 'revGe') and v in ("'\\u{1f}'", "'\\x1f'"))
